@@ -193,7 +193,7 @@ pub fn sweep_case(mut k: u64) -> DiffCase {
 }
 
 pub fn gen_case(rng: &mut Rng, hostile_bytes: bool, thorough: bool) -> DiffCase {
-    let family = rng.weighted(&[30, 30, 5, 8, 12, 15]);
+    let family = rng.weighted(&[30, 30, 5, 8, 12, 15, 4]);
     // a small expression pool and alphabet make overlapping match sets likely
     let pool_size = *rng.pick(&[4usize, 8, 12, POOL.len()]);
     let alpha_size = *rng.pick(&[3usize, 4, 6, ALPHA.len()]);
@@ -321,6 +321,18 @@ pub fn gen_case(rng: &mut Rng, hostile_bytes: bool, thorough: bool) -> DiffCase 
                 exps,
                 out: join_lines(&lines, true),
                 family: family.into(),
+            }
+        }
+        // the output is the text of the expectation lines themselves, annotations included
+        // (`ready (regex)` printed as `ready (regex)`): a shortcut that compares texts is wrong
+        6 => {
+            let n = 1 + rng.below(4);
+            let exps: Vec<String> = (0..n).map(|_| rand_exp(rng, pool_size)).collect();
+            let lines: Vec<Vec<u8>> = exps.iter().map(|e| e.as_bytes().to_vec()).collect();
+            DiffCase {
+                exps,
+                out: join_lines(&lines, rng.bool()),
+                family: "as-written".into(),
             }
         }
         // the output's own lines as expectations (must always pass)
